@@ -397,75 +397,163 @@ def show_tokens(ts):
 
 
 # ---------------------------------------------------------------------------------------------
-# ordered-choice shadowing
+# ordered-choice shadowing, decided on finite automata over a finite alphabet of representatives
 
-def _compat(a, b):
-    """can token a (earlier alternative) match a prefix of text that token b matches?
-    -> 'no' | 'same' (consume the same kind of text) | 'prefix' (a may stop inside b's text)"""
-    if a[0] == "lit" and b[0] == "lit":
-        x, y = a[1], b[1]
-        ci = a[2] or b[2]
-        if a[2] and not b[2]:
-            xe, ye = x.lower(), y.lower()
-        elif not a[2] and b[2]:
-            # earlier is case-sensitive: it matches only its exact spelling, which b also matches
-            xe, ye = x.lower(), y.lower()
-        else:
-            xe, ye = (x.lower(), y.lower()) if ci else (x, y)
-        if xe == ye:
-            return "same"
-        if ye.startswith(xe):
-            return "prefix"
-        return "no"
-    if a[0] == "class" and b[0] == "lit":
-        # a matches a run of class characters at the start of b's literal?
-        first = b[1][0]
-        cands = {first, first.lower(), first.upper()} if b[2] else {first}
-        if cands & set(a[1]):
-            return "prefix"
-        return "no" if a[2] else "skip"
-    if a[0] == "lit" and b[0] == "class":
-        first = a[1][0]
-        cands = {first, first.lower(), first.upper()} if a[2] else {first}
-        return "prefix" if cands & set(b[1]) else "no"
-    if a[0] == "class" and b[0] == "class":
-        return "same" if set(a[1]) & set(b[1]) else ("no" if a[2] else "skip")
-    if a[0] in ("rest",):
-        return "same"
-    if a[0] == "float":
-        if b[0] == "float":
-            return "same"
-        if b[0] == "class":
-            return "prefix" if set(b[1]) & set("0123456789+-.") else "no"
-        if b[0] == "lit":
-            return "prefix" if b[1][0] in "0123456789+-.iInN" else "no"
-        return "prefix"
-    if b[0] in ("rest", "float"):
-        return "prefix"
-    return "prefix"
+FLOAT_RE = ("seq", [("opt", ("set", "+-")),
+                    ("alt", [("seq", [("plus", ("set", "0123456789")), ("opt", ("seq", [("set", "."), ("star", ("set", "0123456789"))]))]),
+                             ("seq", [("set", "."), ("plus", ("set", "0123456789"))]),
+                             ("seq", [("set", "iI"), ("set", "nN"), ("set", "fF")]),
+                             ("seq", [("set", "nN"), ("set", "aA"), ("set", "nN")])]),
+                    ("opt", ("seq", [("set", "eE"), ("opt", ("set", "+-")), ("plus", ("set", "0123456789"))]))])
 
 
-def shadows(A, B):
-    """earlier token sequence A can succeed on a prefix of some text that the later sequence B matches
-    entirely (so B is unreachable for that text under ordered choice without backtracking)"""
-    i = j = 0
-    while True:
-        if i == len(A):
+def tok_re(t):
+    if t[0] == "lit":
+        return ("seq", [("set", (c.lower() + c.upper()) if t[2] else c) for c in t[1]])
+    if t[0] == "class":
+        return ("plus", ("set", t[1])) if t[2] else ("star", ("set", t[1]))
+    if t[0] == "float":
+        return FLOAT_RE
+    if t[0] == "rest":
+        return ("star", ("any",))
+    if t[0] == "eof":
+        return ("seq", [])
+    raise AnchorMissing("token %r" % (t,))
+
+
+class NFA:
+    def __init__(self):
+        self.n = 0
+        self.eps = {}
+        self.tr = {}
+
+    def new(self):
+        self.n += 1
+        return self.n - 1
+
+    def build(self, r, a):
+        """add fragment for r starting at state a; returns end state"""
+        k = r[0]
+        if k == "set" or k == "any":
+            b = self.new()
+            self.tr.setdefault(a, []).append((None if k == "any" else frozenset(r[1]), b))
+            return b
+        if k == "seq":
+            for x in r[1]:
+                a = self.build(x, a)
+            return a
+        if k == "alt":
+            e = self.new()
+            for x in r[1]:
+                s0 = self.new()
+                self.eps.setdefault(a, []).append(s0)
+                self.eps.setdefault(self.build(x, s0), []).append(e)
+            return e
+        if k in ("star", "plus", "opt"):
+            s0 = self.new()
+            e = self.new()
+            self.eps.setdefault(a, []).append(s0)
+            b = self.build(r[1], s0)
+            self.eps.setdefault(b, []).append(e)
+            if k != "plus":
+                self.eps.setdefault(a, []).append(e)
+            if k != "opt":
+                self.eps.setdefault(b, []).append(s0)
+            return e
+        raise AnchorMissing("regex node %r" % (k,))
+
+    def closure(self, S):
+        out = set(S)
+        st = list(S)
+        while st:
+            x = st.pop()
+            for y in self.eps.get(x, ()):
+                if y not in out:
+                    out.add(y)
+                    st.append(y)
+        return frozenset(out)
+
+    def step(self, S, c):
+        out = set()
+        for x in S:
+            for cs, y in self.tr.get(x, ()):
+                if cs is None or c in cs:
+                    out.add(y)
+        return self.closure(out)
+
+
+def shadows(A, B, alphabet):
+    """is there a text that the later sequence B matches entirely and of which the earlier
+    sequence A matches a prefix?  (then B is unreachable for it under ordered choice)"""
+    na, nb = NFA(), NFA()
+    a0, b0 = na.new(), nb.new()
+    ae = na.build(("seq", [tok_re(t) for t in A]), a0)
+    be = nb.build(("seq", [tok_re(t) for t in B]), b0)
+    # once A has matched a prefix it stays satisfied: model by a flag
+    start = (na.closure({a0}), nb.closure({b0}), False)
+    seen = {start}
+    work = [start]
+    while work:
+        SA, SB, done = work.pop()
+        done = done or ae in SA
+        if done and be in SB:
             return True
-        if j == len(B):
-            return False
-        c = _compat(A[i], B[j])
-        if c == "no":
-            return False
-        if c == "skip":       # A's optional-run token matches empty here
-            i += 1
-            continue
-        if c == "prefix":
-            # conservative: A's token may end inside B's token; from here A could still continue to match
-            return True if i + 1 == len(A) else _maybe(A[i + 1:], B[j:], B[j + 1:])
-        i += 1
-        j += 1
+        for c in alphabet:
+            SB2 = nb.step(SB, c)
+            if not SB2:
+                continue
+            SA2 = SA if done else na.step(SA, c)
+            if not done and not SA2:
+                continue
+            nxt = (frozenset() if done else SA2, SB2, done)
+            if nxt not in seen:
+                seen.add(nxt)
+                work.append(nxt)
+    return False
 
 
-def _maybe(Arest, Bsame, Bnext):
-    return shadows(Arest, Bnext) or shadows(Arest, Bsame)
+def alphabet_of(seqs):
+    cs = set("az09 \t=.+-eExXbB\u00e9")
+    for ts in seqs:
+        for t in ts:
+            if t[0] == "lit":
+                cs |= set(t[1].lower()) | set(t[1].upper())
+            elif t[0] == "class":
+                cs |= set(t[1])
+    return sorted(cs)
+
+
+def quick_disjoint(A, B):
+    """cheap sufficient test that no text can start both sequences: the first literals differ"""
+    i = j = 0
+    while i < len(A) and j < len(B):
+        a, b = A[i], B[j]
+        if a[0] == "class" and a[1] == "\t ":
+            if b[0] == "class" and b[1] == "\t ":
+                i += 1
+                j += 1
+                continue
+            if b[0] == "lit" and b[1][0] not in "\t ":
+                if a[2]:
+                    return True      # A needs blanks here, B continues with a keyword
+                i += 1
+                continue
+            return False
+        if b[0] == "class" and b[1] == "\t ":
+            if a[0] == "lit" and a[1][0] not in "\t ":
+                if b[2]:
+                    return True
+                j += 1
+                continue
+            return False
+        if a[0] == "lit" and b[0] == "lit":
+            x, y = a[1].lower(), b[1].lower()
+            if x == y:
+                i += 1
+                j += 1
+                continue
+            if not (x.startswith(y) or y.startswith(x)):
+                return True
+            return False
+        return False
+    return False
